@@ -159,6 +159,10 @@ type world struct {
 	garble   atomic.Int32 // != 0: script commands are answered with a reply no script of a limiter produces
 	garbled  atomic.Int64 // script commands answered that way
 	flushes  atomic.Int64 // SCRIPT FLUSH commands seen
+
+	// outage families (outage_test.go)
+	pingOK      atomic.Bool // with hookDown: PING is answered normally, only script commands fail
+	sharedClock bool        // the virtual clock belongs to the test function, not to this world
 }
 
 func shaOf(script string) string {
@@ -200,9 +204,19 @@ func (h drvHook) ProcessPipelineHook(next red.ProcessPipelineHook) red.ProcessPi
 func (w *world) quiet(mark int64) bool { return w.shaSeen.Load() == mark }
 
 func newWorld(t *testing.T) *world {
+	w, err := newWorldWith(nil)
+	if err != nil {
+		t.Fatalf("%v", err)
+	}
+	return w
+}
+
+// newWorldWith builds a world of its own (miniredis, proxy, clients). vc == nil: the world
+// installs (and on close removes) the process-wide virtual clock; otherwise it uses the given one.
+func newWorldWith(vc *kit.VClock) (*world, error) {
 	mr, err := miniredis.Run()
 	if err != nil {
-		t.Fatalf("miniredis: %v", err)
+		return nil, fmt.Errorf("miniredis: %v", err)
 	}
 	w := &world{mr: mr}
 	// Only top-level commands are answered with the injected error: commands a
@@ -252,7 +266,7 @@ func newWorld(t *testing.T) *world {
 				}
 			}
 		case "PING":
-			if w.hookDown.Load() {
+			if w.hookDown.Load() && !w.pingOK.Load() {
 				c.WriteError(injectedErr)
 				return true
 			}
@@ -262,23 +276,31 @@ func newWorld(t *testing.T) *world {
 	})
 	px, err := newProxy(mr.Addr())
 	if err != nil {
-		t.Fatalf("proxy: %v", err)
+		mr.Close()
+		return nil, fmt.Errorf("proxy: %v", err)
 	}
 	w.px = px
 	w.direct = redis.New(mr.Addr(), redis.WithHook(drvHook{w}))
 	w.viaPx = redis.New(px.addr(), redis.WithHook(drvHook{w}))
 	w.raw = red.NewClient(&red.Options{Addr: mr.Addr(), MaxRetries: -1, DialTimeout: time.Minute, ReadTimeout: time.Minute, WriteTimeout: time.Minute})
-	w.vc = kit.InstallVClock()
-	return w
+	if vc != nil {
+		w.vc, w.sharedClock = vc, true
+	} else {
+		w.vc = kit.InstallVClock()
+	}
+	return w, nil
 }
 
 func (w *world) close() {
 	w.hookDown.Store(false)
+	w.pingOK.Store(false)
 	w.garble.Store(0)
 	w.raw.Close()
 	w.px.close()
 	w.mr.Close()
-	kit.UninstallVClock()
+	if !w.sharedClock {
+		kit.UninstallVClock()
+	}
 }
 
 func (w *world) key(prefix string) string {
@@ -289,6 +311,7 @@ func (w *world) key(prefix string) string {
 // reset prepares a clean store and an empty breaker window for the next case.
 func (w *world) reset() {
 	w.hookDown.Store(false)
+	w.pingOK.Store(false)
 	w.garble.Store(0)
 	if w.netDown {
 		w.px.setDown(false)
@@ -310,6 +333,9 @@ func (w *world) beginOutage(kind string) {
 		w.netDown = true
 	case strings.HasPrefix(kind, outGarble):
 		w.garble.Store(garbageKind(kind))
+	case kind == outEvalOnly:
+		w.pingOK.Store(true)
+		w.hookDown.Store(true)
 	default:
 		w.hookDown.Store(true)
 	}
@@ -320,6 +346,7 @@ func (w *world) beginOutage(kind string) {
 // harness itself (inconclusive, never a verdict).
 func (w *world) heal(st *redis.Redis) bool {
 	w.hookDown.Store(false)
+	w.pingOK.Store(false)
 	w.garble.Store(0)
 	if w.netDown {
 		w.px.setDown(false)
@@ -1186,6 +1213,15 @@ type tokCase struct {
 	localIdx [][]int
 	liveCtx  context.Context // ext families: != nil => call() uses AllowNCtx with this (never done) context
 	notes    map[int]string  // ext families: events that happened before call #i (shown in the witness)
+
+	// outage families (outage_test.go): outages that last a drawn amount of REAL time
+	patience     int         // > 0: resync() decides "stays local" by patience (monitor periods), see resyncPatient
+	scenario     string      // which scenario of the batch this is (witness)
+	lastOutage   outageInfo  // the outage the instances are recovering from
+	outagesLog   []string    // measured real lengths (witness only, not part of the signature)
+	noticed      []time.Time // per instance: wall clock of its first locally served call in the current outage
+	rejoinLong   bool        // an instance that had been in rescue mode for > 1 s of real time was store-served again
+	rejoinLongAt int         // ... first at this call index
 }
 
 func (t *tokCase) class() string {
@@ -1218,7 +1254,12 @@ func (t *tokCase) hist() []string {
 }
 
 func (t *tokCase) witness(detail string) map[string]any {
-	return map[string]any{"limiter": "TokenLimiter", "params": t.params(), "history": t.hist(), "detail": detail}
+	m := map[string]any{"limiter": "TokenLimiter", "params": t.params(), "history": t.hist(), "detail": detail}
+	if t.scenario != "" {
+		m["scenario"] = t.scenario
+		m["outages_real_time"] = t.outagesLog
+	}
+	return m
 }
 
 func (t *tokCase) advance(d time.Duration) {
@@ -1370,6 +1411,9 @@ func (t *tokCase) call(inst, n int, phase string) (storeServed bool) {
 	}
 	t.c.Obs("token_local_served", 1)
 	t.localIdx[inst] = append(t.localIdx[inst], idx)
+	if t.noticed != nil && t.outage != "" && t.noticed[inst].IsZero() {
+		t.noticed[inst] = time.Now()
+	}
 	return false
 }
 
@@ -1427,15 +1471,19 @@ func (t *tokCase) hammer(r *kit.Rand) {
 		if t.abort {
 			return
 		}
-		first := r.Range(1, t.burst)
-		t.call(inst, first, "outage")
-		denials := 0
-		for k := 0; k < t.burst+4 && denials < 2 && !t.abort; k++ {
-			before := len(t.recs)
-			t.call(inst, 1, "outage")
-			if !t.recs[before].granted {
-				denials++
-			}
+		t.hammerInst(r, inst)
+	}
+}
+
+func (t *tokCase) hammerInst(r *kit.Rand, inst int) {
+	first := r.Range(1, t.burst)
+	t.call(inst, first, "outage")
+	denials := 0
+	for k := 0; k < t.burst+4 && denials < 2 && !t.abort; k++ {
+		before := len(t.recs)
+		t.call(inst, 1, "outage")
+		if !t.recs[before].granted {
+			denials++
 		}
 	}
 }
@@ -1450,6 +1498,9 @@ func (t *tokCase) hammer(r *kit.Rand) {
 // in calls invoked after that, it keeps ignoring a store it demonstrably
 // reaches: violation. Otherwise a watchdog ends the wait as inconclusive.
 func (t *tokCase) resync() bool {
+	if t.patience > 0 {
+		return t.resyncPatient()
+	}
 	deadline := time.Now().Add(30 * time.Second)
 	pongBase := t.w.pongs.Load()
 	enoughPongs := int64(4*len(t.insts) + 8)
